@@ -5,6 +5,7 @@ from .. import ws, gen_hs, monitors_hs
 from ..gen_hs import hx
 
 class HsProp(Prop):
+    proto_class_only = True       # which ProtocolError variant rejects a bad handshake is not part of C15-C17
     engine_desc = ('E3 accept_hdr_with_config / client_with_config / MidHandshake::handshake (resumed after every Interrupted) vs '
                    'Handshake.server_handshake / client_handshake; E1 create_response, generate_request, into_client_request, derive_accept_key')
     trusted_extra = ['HTTP head parsing (httparse + http crate validation) is an ORACLE of the model: its per-buffer outcomes are taken from the real parser on every run',
@@ -178,7 +179,7 @@ class C16(HsProp):
             p = trace.split(':')
             lines = bytes.fromhex(p[1]).split(b'\r\n')
             return 'ok:%r:%s' % (lines[:6] + sorted(lines[6:]), p[2])
-        return trace
+        return HsProp.project(self, case_line, trace)
     def monitor(self, case_line, trace, mline):
         kind = case_line.split(' ')[0]
         if kind == 'HC':
